@@ -46,17 +46,20 @@ reg("C25", "model_checking",
 
 ENGINE_NOTE = ("Bounded: scenario programs with <=4 steps, num_workers<=3, <=6 events, retry budgets<=4; environment actions at "
                "quiescence points of the event loop; async steps only. Trusted: inert instrumentation shim, virtual-time "
-               "loop, projection functions, TLC. Reducer conformance (TraceReducer.tla) is evidence, observer verdicts decide.")
+               "loop, projection functions, TLC. Conformance (TraceReducer.tla per reducer transition, TraceEngine.tla per runner "
+               "action incl. resumed runs) is evidence, observer verdicts decide.")
 ENGINE_TECH = ("TLA+ Engine/Reducer spec model-checked by TLC; real-engine schedule exploration with TLC trace validation "
-               "(TraceReducer) and TLC-evaluated property observer")
+               "(TraceReducer: every reducer transition; TraceEngine: every recorded execution is a behaviour of Engine.tla), "
+               "spec-to-code replay of TLC graph paths, and TLC-evaluated property observer")
 
 
 def engine(pid, what, ref):
     reg(pid, "model_checking",
         what + " Decided in three layers: (1) TLC exhaustively checks the property's invariant on Engine.tla (runner + "
         "Reducer.tla, the same program dicts the real engine runs) for all schedules of small scenario programs; (2) the real "
-        "engine is driven under a virtual-time loop through bounded-DFS and seeded schedules, and every recorded reducer "
-        "transition is validated by TLC against Reducer.tla; (3) TLC evaluates the observer Obs_%s.tla -- a literal "
+        "engine is driven under a virtual-time loop through bounded-DFS and seeded schedules, every recorded reducer "
+        "transition is validated by TLC against Reducer.tla and every recorded execution line by line against Engine.tla "
+        "(TraceEngine.tla: buffer order, wake choice, timers, worker results); (3) TLC evaluates the observer Obs_%s.tla -- a literal "
         "transcription of the statement over step-body logs, the published stream and outcomes -- on every recorded "
         "execution; only (1) and (3) produce verdicts." % pid,
         ENGINE_NOTE, ENGINE_TECH, ref)
@@ -80,8 +83,12 @@ engine("C35", "StepStateChanged telemetry alternates per worker slot, PREPARING 
 SERVER_NOTE = ("Real WorkflowServer stack (ServerRuntimeDecorator > IdleReleaseDecorator > PersistenceDecorator > BasicRuntime) "
                "assembled by the real WorkflowServer.__init__ on SqliteWorkflowStore under a virtual-time loop; starlette/uvicorn "
                "are stubbed (HTTP layer not exercised); datetime.now of the server modules reads the virtual wall clock; a crash "
-               "is the process stopping right after the k-th append_tick; bounded scenario programs.")
-SERVER_TECH = "TLA+ server specs model-checked by TLC; crash/idle-release schedules replayed on the real server stack; TLC-evaluated observer"
+               "is the process stopping right after the k-th append_tick; bounded scenario programs. Every recorded server execution "
+               "(crash + restart = one trace) is validated line by line against ServerStack.tla by TraceServer.tla, its invariants "
+               "evaluated in every state (evidence; the observer decides).")
+SERVER_TECH = ("TLA+ server specs (ServerStack.tla: whole stack around one run; Persistence/IdleRelease/HandlerStatus: scenarios) "
+               "model-checked by TLC; crash/idle-release/fault schedules on the real server stack with TLC trace validation "
+               "(TraceServer) and TLC-evaluated property observer")
 
 reg("C13", "model_checking",
     "Restart at any persisted point. TLC checks Persistence.tla (tick log durable; tick buffer, mailbox, timers in memory; "
